@@ -128,6 +128,10 @@ def r1_handler_census(ctx: Ctx) -> None:
                 records = [x for st in h.body for x in ast.walk(st) if isinstance(x, (ast.Assign, ast.AugAssign, ast.AnnAssign, ast.Return, ast.Yield))
                            and not (isinstance(x, ast.Return) and x.value is None)]
                 failure = names is None or bool(names & _failure_classes(ctx))
+                if here and failure:
+                    ctx.fail(construct, "the handler is broader than the local recovery confirmed for this function "
+                             f"(which catches only {here}): the additional errors it catches are dropped")
+                    continue
                 if records and not (isinstance(h.body[-1], ast.Return) and isinstance(h.body[-1].value, ast.Constant) and h.body[-1].value.value in (0, None, True)):
                     raise AnalysisError(f"{construct}: an unconfirmed handler records the error in a value ({unparse(records[0])[:40]}); whether every caller "
                                         "turns that value into a failure status is not decided")
@@ -207,19 +211,23 @@ def r2_entry_point_status(ctx: Ctx) -> None:
         raise AnalysisError("assemble_with_emitter: call of assemble_string_with_emitter not found")
     cn = g.node_containing(call[0])
     # the returned error string is tested and the success exit lies on the `no error` side
-    tests = [s for s in walk_no_nested(awe.node) if isinstance(s, ast.If) and unparse(s.test) in ("error is not None", "error", "error is None", "not error")]
     bound = [s for s in walk_no_nested(awe.node) if isinstance(s, ast.Assign) and s.value is call[0]]
+    ev = unparse(bound[0].targets[0]) if bound else "error"
+    tests = [s for s in walk_no_nested(awe.node) if isinstance(s, ast.If) and unparse(s.test) in (f"{ev} is not None", ev, f"{ev} is None", f"not {ev}")]
     if not bound or not tests:
         ctx.fail("assemble_with_emitter:error-string", "the error message returned by assemble_string_with_emitter is not examined: scan and parse errors end in the success exit")
     else:
         t = tests[0]
-        err_branch_label = "T" if unparse(t.test) in ("error is not None", "error") else "F"
+        err_branch_label = "T" if unparse(t.test) in (f"{ev} is not None", ev) else "F"
         tn = g.node_of(t.test)
         for what, sn in succ_nodes:
             blocked = [(tn, m, l) for m, l in g.succ[tn] if l != err_branch_label]
-            reach = g.reachable([tn], blocked_edges=blocked)
+            reach = g.reachable_with_flags([m for m, l in g.succ[tn] if l == err_branch_label])
             ctx.check(sn not in reach, f"assemble_with_emitter:error-string -> {what}", "when an error string came back the success exit is unreachable")
-            ctx.check(g.dominated_by(sn, [tn]) and g.dominated_by(sn, [cn]), f"assemble_with_emitter:{what}:dominated", "success is reached only through the completed assembly and the error test")
+            from ..cfg import ENTRY as _E
+
+            dom = sn not in g.reachable_with_flags([_E], blocked=[tn]) and sn not in g.reachable_with_flags([_E], blocked=[cn])
+            ctx.check(dom, f"assemble_with_emitter:{what}:dominated", "success is reached only through the completed assembly and the error test")
     # wrappers return the callee's status
     for q in ("Program.assemble", "Program.assemble_as_patch"):
         fn = ctx.repo.func(PROGRAM, q)
@@ -242,8 +250,13 @@ def r2_entry_point_status(ctx: Ctx) -> None:
     ok = len(exits) == 1 and len(exits[0].args) == 1 and isinstance(exits[0].args[0], ast.Name)
     if ok:
         var = exits[0].args[0].id  # type: ignore[union-attr]
-        defs = [unparse(s.value) for s in walk_no_nested(cli.node) if isinstance(s, ast.Assign) and unparse(s.targets[0]) == var]
+        dnodes = [s.value for s in walk_no_nested(cli.node) if isinstance(s, ast.Assign) and unparse(s.targets[0]) == var]
+        defs = [unparse(d) for d in dnodes]
         ok = len(defs) >= 1 and all(d.startswith("program.assemble_as_patch(") or d.startswith("program.assemble(") for d in defs)
+        if not ok and dnodes and all(isinstance(d, ast.Call) and (isinstance(d.func, (ast.Name, ast.Subscript, ast.Call)) and (call_name(d) or "") not in ("int", "bool")) for d in dnodes):
+            raise AnalysisError(f"cli_main: the exit status comes from `{defs[0][:50]}`, a call the analysis does not resolve to an entry point; not decided")
+    elif len(exits) != 1:
+        raise AnalysisError(f"cli_main: {len(exits)} sys.exit calls; not modelled")
     ctx.check(ok, "cli_main:exit-status", "the process exits with the status returned by the assembler entry point")
     for t in _tries(cli.node):
         for h in t.handlers:
